@@ -452,8 +452,34 @@ func genEpochEdge(emit func(string)) {
 	}
 }
 
+// wrapPairs: pairs of 64-bit numbers whose product, sum or difference wraps to something small: where two
+// parameters are combined by arithmetic (a window = skew x period, a bound = counter + skew), a check made on the
+// combination instead of on the parameter itself lets such a pair through
+func wrapPairs() [][2]uint64 {
+	var ps [][2]uint64
+	for _, k := range []uint{1, 2, 3, 8, 16, 31, 32, 33, 48, 61, 62, 63} {
+		a, b := uint64(1)<<k, uint64(1)<<(64-k)
+		ps = append(ps, [2]uint64{a, b}, [2]uint64{a + 1, b}, [2]uint64{a, b + 1}, [2]uint64{3 * a, b}, [2]uint64{a - 1, b})
+	}
+	ps = append(ps, [2]uint64{0xAAAAAAAAAAAAAAAB, 3}, [2]uint64{0xAAAAAAAAAAAAAAAB, 30}, [2]uint64{0xCCCCCCCCCCCCCCCD, 5}, [2]uint64{0xEEEEEEEEEEEEEEEF, 15},
+		[2]uint64{1<<64 - 1, 1<<64 - 1}, [2]uint64{1<<64 - 1, 2}, [2]uint64{1<<64 - 30, 30}, [2]uint64{1<<63 + 5, 2})
+	return ps
+}
+
 func genC04Edge(emit func(string)) {
 	genEpochEdge(emit)
+	// skew and period that only look acceptable after they have been multiplied or added (both orders)
+	{
+		key := []byte("12345678901234567890")
+		sec := base32.StdEncoding.EncodeToString(key)
+		for _, ab := range wrapPairs() {
+			for _, sp := range [][2]uint64{{ab[0], ab[1]}, {ab[1], ab[0]}} {
+				p := &otp.Param{Digits: 6, Period: uint(sp[1]), Skew: uint(sp[0]), Algorithm: otp.SHA1}
+				emit(fmt.Sprintf("vtotp %s %s 59,0,0,0 %s", hxs(sec), hxs("00000a"), fmtParam(p)))
+				emit(fmt.Sprintf("vtotp %s %s 59,0,0,0 %s", hxs(sec), hxs("287082"), fmtParam(p)))
+			}
+		}
+	}
 	// the lower window edge, systematically: time steps at and around the skew, codes of every step from 0 to one
 	// past the upper edge
 	{
